@@ -1104,7 +1104,7 @@ func init() {
 // the current / next token and do not advance.
 func tokenTests(pr *parserRoles) (curIs, peekIs *ssa.Function) {
 	for _, fn := range pr.all {
-		if fn.Parent() != nil || fn == pr.expect {
+		if fn.Parent() != nil || pr.isExpect(fn) {
 			continue
 		}
 		ps, rs := sigParams(fn), sigResults(fn)
@@ -1248,7 +1248,7 @@ func ruleSeenToken(p *Program, r *Reporter) {
 	}
 	moves := func(c *ssa.Call) bool {
 		cal := c.Call.StaticCallee()
-		return cal == pr.advance || cal == pr.expect
+		return cal == pr.advance || pr.isExpect(cal)
 	}
 	// examines: the call looks at the current token
 	examDepth := 0
@@ -1300,7 +1300,7 @@ func ruleSeenToken(p *Program, r *Reporter) {
 			if cal == curIs {
 				return true
 			}
-			if cal == pr.advance || cal == pr.expect || cal == peekIs || cal == pr.peekPrec {
+			if cal == pr.advance || pr.isExpect(cal) || cal == peekIs || cal == pr.peekPrec {
 				return false
 			}
 			if fnPkg(cal) != nil && fnPkg(cal).Pkg.Path() == Mod+"/parser" && recvNamed(cal, "parser", "Parser") {
@@ -1325,7 +1325,7 @@ func ruleSeenToken(p *Program, r *Reporter) {
 	}
 	for _, fn := range pr.all {
 		// the constructor primes the current and next token: nothing is skipped there
-		if fn == pr.advance || fn == pr.expect || !recvNamed(fn, "parser", "Parser") {
+		if fn == pr.advance || pr.isExpect(fn) || !recvNamed(fn, "parser", "Parser") {
 			continue
 		}
 		idx := 0
@@ -1478,6 +1478,7 @@ func ruleSeenToken(p *Program, r *Reporter) {
 				}
 				visited := map[*ssa.BasicBlock]bool{}
 				var back func(bl *ssa.BasicBlock, from int)
+				backDepth := 0
 				back = func(bl *ssa.BasicBlock, from int) {
 					for j := from; j >= 0; j-- {
 						if c2, ok := bl.Instrs[j].(*ssa.Call); ok {
@@ -1489,7 +1490,28 @@ func ruleSeenToken(p *Program, r *Reporter) {
 						}
 					}
 					if len(bl.Preds) == 0 {
-						unknown = "no test of the next token on a path from the function's entry"
+						// the entry of a helper: what its callers did before the call
+						// counts (`if p.peekTokenIs(ELSE) { alt, ok := p.parseElse() …`
+						// with the advance at the top of parseElse)
+						g := bl.Parent()
+						sites := 0
+						if backDepth < 2 {
+							for _, cf := range pr.all {
+								for _, cb := range cf.Blocks {
+									for ci, cin := range cb.Instrs {
+										if c3, ok := staticCalleeIs(cin, g); ok && c3 != nil {
+											sites++
+											backDepth++
+											back(cb, ci-1)
+											backDepth--
+										}
+									}
+								}
+							}
+						}
+						if sites == 0 {
+							unknown = "no test of the next token on a path from the function's entry"
+						}
 						return
 					}
 					for _, pd := range bl.Preds {
